@@ -7,6 +7,7 @@ import (
 	"sort"
 	"sync"
 
+	"github.com/btcsuite/btcd/blockchain"
 	"github.com/btcsuite/btcd/btcutil/v2"
 	btcmempool "github.com/btcsuite/btcd/mempool"
 	"github.com/btcsuite/btcd/wire/v2"
@@ -316,7 +317,7 @@ func (e *Env) Monitor(prev, o *Obs, l Label, r *stepResult, staleSpec []int, spe
 			}
 		}
 		if guard {
-			if err := e.Chain.CheckConnectBlockTemplate(e.PoolBlock(ids)); err != nil {
+			if err := e.Chain.CheckConnectBlockTemplate(e.PoolBlock(ids)); err != nil && !capacityError(err) {
 				add("minable", "pool %v in dependency order is not a valid next block: %v", ids, err)
 			}
 		}
@@ -378,6 +379,19 @@ func (e *Env) Monitor(prev, o *Obs, l Label, r *stepResult, staleSpec []int, spe
 	return fs
 }
 
+// capacityError: the pool as a whole does not fit into one block (the property
+// is about validity, not about capacity).
+func capacityError(err error) bool {
+	var re blockchain.RuleError
+	if errors.As(err, &re) {
+		switch re.ErrorCode {
+		case blockchain.ErrTooManySigOps, blockchain.ErrBlockWeightTooHigh, blockchain.ErrBlockTooBig:
+			return true
+		}
+	}
+	return false
+}
+
 // conflictClosure: pooled transactions sharing an input with t, plus their
 // pooled descendants (property-level definition over the observed pool).
 func conflictClosure(u *Universe, o *Obs, t int) []int {
@@ -426,7 +440,11 @@ type Walker struct {
 	// OnState, when set, is called once per distinct spec state reached with a
 	// matching real node (C12 hooks in here).
 	OnState func(e *Env, n *tlc.Node, s *SpecState) error
-	MaxLen  int
+	// Monitors switches the C10 clause monitors on (C12 only follows the specification).
+	Monitors bool
+	// OnPathEnd, when set, is called with the node at the end of every path that stayed on the specification.
+	OnPathEnd func(e *Env)
+	MaxLen    int
 
 	mu       sync.Mutex
 	covered  map[*tlc.Node][]bool
@@ -444,7 +462,7 @@ type Walker struct {
 }
 
 func NewWalker(m *Model, ctx *vrun.Ctx) *Walker {
-	w := &Walker{M: m, Ctx: ctx, covered: map[*tlc.Node][]bool{}, attempts: map[*tlc.Node]map[string]int{}, visited: map[*tlc.Node]bool{}, inflight: map[*tlc.Node]bool{}, MaxLen: 40}
+	w := &Walker{M: m, Ctx: ctx, covered: map[*tlc.Node][]bool{}, attempts: map[*tlc.Node]map[string]int{}, visited: map[*tlc.Node]bool{}, inflight: map[*tlc.Node]bool{}, MaxLen: 2000}
 	for _, n := range m.G.Order {
 		w.covered[n] = make([]bool, len(n.Out))
 		w.attempts[n] = map[string]int{}
@@ -525,6 +543,51 @@ func (w *Walker) release(n *tlc.Node) {
 	w.mu.Unlock()
 }
 
+// detour returns the labels of a shortest path (at most maxDepth steps) from n
+// to a state with an uncovered edge.
+func (w *Walker) detour(n *tlc.Node, maxDepth int) []string {
+	w.mu.Lock()
+	defer w.mu.Unlock()
+	eligible := func(x *tlc.Node) bool {
+		for lab, idxs := range w.M.ByLabel[x] {
+			if w.attempts[x][lab] >= maxAttempts {
+				continue
+			}
+			for _, i := range idxs {
+				if !w.covered[x][i] {
+					return true
+				}
+			}
+		}
+		return false
+	}
+	type item struct {
+		n    *tlc.Node
+		path []string
+	}
+	seen := map[*tlc.Node]bool{n: true}
+	q := []item{{n, nil}}
+	for len(q) > 0 {
+		it := q[0]
+		q = q[1:]
+		if len(it.path) >= maxDepth {
+			continue
+		}
+		for _, e := range it.n.Out {
+			if seen[e.To] {
+				continue
+			}
+			seen[e.To] = true
+			p := append(append([]string(nil), it.path...), e.Action)
+			if eligible(e.To) {
+				return p
+			}
+			q = append(q, item{e.To, p})
+		}
+	}
+	return nil
+}
+
 func (w *Walker) markCovered(n *tlc.Node, i int) {
 	w.mu.Lock()
 	if !w.covered[n][i] {
@@ -601,20 +664,24 @@ func (w *Walker) RunPath(target *tlc.Node, rng *rand.Rand) error {
 			w.Ctx.Violation(f.key, fmt.Sprintf("universe %s: %s", m.U.Name, f.what), map[string]any{"universe": m.U, "trace": trace})
 		}
 	}
-	for step := 0; step < len(plan)+w.MaxLen; step++ {
-		var lab string
-		if step < len(plan) {
-			lab = plan[step]
+	for step := 0; step < w.MaxLen; step++ {
+		lab := ""
+		if len(plan) > 0 {
+			lab, plan = plan[0], plan[1:]
 			if _, ok := m.ByLabel[cur][lab]; !ok {
 				// a nondeterministic outcome took us off the planned path
-				plan = plan[:step]
-				lab = ""
+				lab, plan = "", nil
 			}
 		}
 		if lab == "" {
 			lab = w.pickLabel(cur, rng)
 			if lab == "" {
-				break
+				// nothing left here: walk to the nearest state that still has uncovered edges
+				detour := w.detour(cur, 64)
+				if len(detour) == 0 {
+					break
+				}
+				lab, plan = detour[0], detour[1:]
 			}
 		}
 		l := m.Labels[lab]
@@ -671,8 +738,11 @@ func (w *Walker) RunPath(target *tlc.Node, rng *rand.Rand) error {
 			ts.Spec = match.State.Go()
 		}
 		trace = append(trace, ts)
-		fs := env.Monitor(prev, obs, l, res, stale, match != nil)
-		if !classOK && res.Class == 1 {
+		var fs []finding
+		if w.Monitors {
+			fs = env.Monitor(prev, obs, l, res, stale, match != nil)
+		}
+		if w.Monitors && !classOK && res.Class == 1 {
 			if name, must := mustReject[code]; must {
 				fs = append(fs, finding{"accepted-forbidden:" + name, fmt.Sprintf("%s was accepted; the specification rejects it (code %d: %s)", lab, code, name)})
 			}
@@ -721,6 +791,9 @@ func (w *Walker) RunPath(target *tlc.Node, rng *rand.Rand) error {
 				return err
 			}
 		}
+	}
+	if w.OnPathEnd != nil {
+		w.OnPathEnd(env)
 	}
 	return nil
 }
